@@ -12,7 +12,8 @@ one() {
     o=$(/verif/bin/gocqlverif check -property $p -repo $D/repo -no-evidence 2>&1 | grep -E "^  [^ ]+: C[0-9]+\.R|^UNRESOLVED" | sed "s#$D/repo/##g" | cut -c1-330)
     [ -n "$o" ] && out="$out$o"$'\n'
   done
-  if [ -z "$out" ]; then echo "$(basename $d): silent"; else echo "$(basename $d): ALARMS"; echo "$out" | sed 's/^/    /'; fi
+  mkdir -p /tmp/refrun
+  if [ -z "$out" ]; then echo "$(basename $d): silent" | tee /tmp/refrun/$(basename $d).out; else { echo "$(basename $d): ALARMS"; echo "$out" | sed 's/^/    /'; } > /tmp/refrun/$(basename $d).out; echo "$(basename $d): ALARMS (see /tmp/refrun/$(basename $d).out)"; fi
   rm -rf $D
 }
 export -f one; export props
